@@ -44,20 +44,20 @@ Proof.
                  | apply frame_eq_refl | fr ].
 Qed.
 
-Lemma step_frame m o s s' : step m o s = Ok s' -> frame_eq s s'.
+Lemma cstep_frame m lab o s s' : cstep m lab o s = Ok s' -> frame_eq s s'.
 Proof.
-  unfold step. intros H. apply bind_ok in H. destruct H as [s1 [H1 H2]].
+  unfold cstep. intros H. apply bind_ok in H. destruct H as [s1 [H1 H2]].
   apply exec_op_frame in H1. unfold advance_clock in H2.
-  destruct (m <? clk (set_clk s1 (clk s1 + 1))); [discriminate|].
+  destruct (m <? clk (set_clk (log_op lab s1) (clk (log_op lab s1) + 1))); [discriminate|].
   apply Ok_inj in H2; subst s'. destruct H1 as [A [B C]]. unfold frame_eq; cbn; repeat split; assumption.
 Qed.
 
-Lemma steps_frame m ops : forall s s', steps m ops s = Ok s' -> frame_eq s s'.
+Lemma csteps_frame m ops : forall s s', csteps m ops s = Ok s' -> frame_eq s s'.
 Proof.
-  induction ops as [|o ops IH]; intros s s' H; cbn [steps] in H.
+  induction ops as [|[lab o] ops IH]; intros s s' H; cbn [csteps] in H.
   - apply Ok_inj in H; subst. apply frame_eq_refl.
   - apply bind_ok in H. destruct H as [s1 [H1 H2]].
-    eapply frame_eq_trans; [eapply step_frame; eauto | eapply IH; eauto].
+    eapply frame_eq_trans; [eapply cstep_frame; eauto | eapply IH; eauto].
 Qed.
 
 (* what a completed call leaves behind *)
@@ -96,72 +96,72 @@ Proof.
   - split; [|split; [|split]]; intros; discriminate.
   - destruct IH as [IHb [IHl [IHc IHd]]].
     assert (Hb : forall b s s', EB (S f) b s = Ok s' -> frame_eq s s').
-    { intros b s s' H. destruct b; cbn [exec_block] in H; unfold stepc in H.
-      + eapply steps_frame; eauto.
+    { intros b s s' H. destruct b; cbn [exec_block] in H; unfold cst in H.
+      + eapply csteps_frame; eauto.
       + apply bind_ok in H; destruct H as [s1 [H1 H]].
         apply bind_ok in H; destruct H as [s2 [H2 H]].
         apply bind_ok in H; destruct H as [s3 [H3 H]].
-        eapply frame_eq_trans; [eapply step_frame; eauto|].
+        eapply frame_eq_trans; [eapply cstep_frame; eauto|].
         eapply frame_eq_trans; [eapply IHb; eauto|].
-        eapply frame_eq_trans; [eapply IHb; eauto | eapply step_frame; eauto].
+        eapply frame_eq_trans; [eapply IHb; eauto | eapply cstep_frame; eauto].
       + apply bind_ok in H; destruct H as [s1 [H1 H]].
         destruct (get s 0 =? 1).
         * apply bind_ok in H; destruct H as [s2 [H2 H]].
-          eapply frame_eq_trans; [eapply step_frame; eauto|].
-          eapply frame_eq_trans; [eapply IHb; eauto | eapply step_frame; eauto].
+          eapply frame_eq_trans; [eapply cstep_frame; eauto|].
+          eapply frame_eq_trans; [eapply IHb; eauto | eapply cstep_frame; eauto].
         * destruct (get s 0 =? 0); [|discriminate].
           apply bind_ok in H; destruct H as [s2 [H2 H]].
-          eapply frame_eq_trans; [eapply step_frame; eauto|].
-          eapply frame_eq_trans; [eapply IHb; eauto | eapply step_frame; eauto].
+          eapply frame_eq_trans; [eapply cstep_frame; eauto|].
+          eapply frame_eq_trans; [eapply IHb; eauto | eapply cstep_frame; eauto].
       + apply bind_ok in H; destruct H as [s1 [H1 H]].
         destruct (get s 0 =? 1).
         * apply bind_ok in H; destruct H as [s2 [H2 H]].
-          eapply frame_eq_trans; [eapply step_frame; eauto|].
+          eapply frame_eq_trans; [eapply cstep_frame; eauto|].
           eapply frame_eq_trans; [eapply IHb; eauto | eapply IHl; eauto].
         * destruct (get s 0 =? 0); [|discriminate].
-          eapply frame_eq_trans; [eapply step_frame; eauto | eapply step_frame; eauto].
+          eapply frame_eq_trans; [eapply cstep_frame; eauto | eapply cstep_frame; eauto].
       + destruct (IHc _ _ _ _ H) as [A [B [C _]]]. unfold frame_eq; repeat split; assumption.
       + destruct (kernel_has K fn_hash); [|discriminate].
         destruct (IHc _ _ _ _ H) as [A [B [C _]]]. unfold frame_eq; repeat split; assumption.
       + eapply IHd; eauto. }
     assert (Hl : forall b s s', EL (S f) b s = Ok s' -> frame_eq s s').
-    { intros b s s' H. cbn [exec_loop] in H. unfold stepc in H.
+    { intros b s s' H. cbn [exec_loop] in H. unfold cst in H.
       destruct (get s 0 =? 1).
       - apply bind_ok in H; destruct H as [s1 [H1 H]].
         apply bind_ok in H; destruct H as [s2 [H2 H]].
-        eapply frame_eq_trans; [eapply step_frame; eauto|].
+        eapply frame_eq_trans; [eapply cstep_frame; eauto|].
         eapply frame_eq_trans; [eapply IHb; eauto | eapply IHl; eauto].
-      - destruct (get s 0 =? 0); [|discriminate]. eapply step_frame; eauto. }
+      - destruct (get s 0 =? 0); [|discriminate]. eapply cstep_frame; eauto. }
     assert (Hd : forall s s', ED (S f) s = Ok s' -> frame_eq s s').
-    { intros s s' H. cbn [exec_dyn] in H. unfold stepc in H.
+    { intros s s' H. cbn [exec_dyn] in H. unfold cst in H.
       apply bind_ok in H; destruct H as [s1 [H1 H]].
       destruct (table_get T _); [|discriminate].
       apply bind_ok in H; destruct H as [s2 [H2 H]].
-      eapply frame_eq_trans; [eapply step_frame; eauto|].
-      eapply frame_eq_trans; [eapply IHb; eauto | eapply step_frame; eauto]. }
+      eapply frame_eq_trans; [eapply cstep_frame; eauto|].
+      eapply frame_eq_trans; [eapply IHb; eauto | eapply cstep_frame; eauto]. }
     assert (Hc : forall h sys s s', EC (S f) h sys s = Ok s' ->
       saved s' = saved s /\ ctx s' = ctx s /\ fn_hash s' = fn_hash s /\ in_syscall s' = false /\
       fmp s' = fmp s /\
       exists s2, (length (stk s2) <= 16)%nat /\ stk s' = stk s2 ++ skipn 16 (stk s) /\
                  oaddr s' = oaddr s).
-    { intros h sys s s' H. cbn [exec_call] in H. unfold stepc in H.
+    { intros h sys s s' H. cbn [exec_call] in H. unfold cst in H.
       apply bind_ok in H; destruct H as [s1 [H1 H]].
       apply bind_ok in H; destruct H as [s2 [H2 H]].
       destruct (Nat.ltb 16 (depth s2)) eqn:Ed; [discriminate|].
       apply Nat.ltb_ge in Ed.
-      assert (F1 : frame_eq (start_call_ctx s h sys) s1) by (eapply step_frame; eauto).
+      assert (F1 : frame_eq (start_call_ctx s h sys) s1) by (eapply cstep_frame; eauto).
       assert (F2 : frame_eq s1 s2).
       { destruct (word_eqb h DYN_HASH); [eapply IHd; eauto|].
         destruct (table_get T h); [eapply IHb; eauto | discriminate]. }
       pose proof (frame_eq_trans _ _ _ F1 F2) as [S1 _]. cbn [saved start_call_ctx] in S1.
-      pose proof (step_frame _ _ _ _ H) as [A [B C]].
+      pose proof (cstep_frame _ _ _ _ _ H) as [A [B C]].
       assert (E : restore_ctx s s2 =
                   mkState (stk s2 ++ skipn 16 (stk s)) (oaddr s) (saved s) (clk s2) (ctx s) (fmp s)
-                          false (fn_hash s) (mem s2) (adv s2)).
+                          false (fn_hash s) (mem s2) (adv s2) (olog s2)).
       { unfold restore_ctx. rewrite S1. reflexivity. }
       rewrite E in A, B, C. cbn in A, B, C.
       (* the END row is a NOOP: stack, overflow addresses and fmp of the restored state survive *)
-      unfold step in H. rewrite E in H. cbn [exec_op lift_pure pure_op pure_op_gen] in H.
+      unfold cstep in H. rewrite E in H. cbn [exec_op lift_pure pure_op pure_op_gen] in H.
       unfold bind, advance_clock in H. cbn in H.
       match type of H with (if ?c then _ else _) = _ => destruct c; [discriminate|] end.
       apply Ok_inj in H; subst s'. cbn.
@@ -182,14 +182,14 @@ Theorem call_frame_restored fuel h sys s s' :
 Proof. destruct (exec_all_frames fuel) as [_ [_ [Hc _]]]. apply Hc. Qed.
 
 (* a callee that ends with more than 16 elements makes the call fail *)
-Theorem call_depth_on_return f h sys s s1 s2 :
-  step m Noop (start_call_ctx s h sys) = Ok s1 ->
+Theorem call_depth_on_return f h (sys : bool) s s1 s2 :
+  cstep m (if sys then SysCall else Call) Noop (start_call_ctx s h sys) = Ok s1 ->
   (if word_eqb h DYN_HASH then ED f s1
    else match table_get T h with Some body => EB f body s1 | None => Err CodeBlockNotFound s1 end) = Ok s2 ->
   (16 < depth s2)%nat ->
   EC (S f) h sys s = Err (DepthOnReturn (Z.of_nat (depth s2))) s2.
 Proof.
-  intros H1 H2 Hd. cbn [exec_call]. unfold stepc, bind. rewrite H1.
+  intros H1 H2 Hd. cbn [exec_call]. unfold cst, bind. rewrite H1.
   match goal with |- match ?X with _ => _ end = _ => replace X with (@Ok state s2) by (symmetry; exact H2) end.
   apply Nat.ltb_lt in Hd. rewrite Hd. reflexivity.
 Qed.
